@@ -150,8 +150,20 @@ def ical_lines(rng, uid, token, kind=None, rich=True, summary=None):
             L.append("LOCATION;LANGUAGE=en:" + esc_text(rand_text(rng, 1)))
         if rng.random() < 0.25 and kind == "VEVENT":
             L.append("ATTENDEE;CN=\"Doe, John\";ROLE=REQ-PARTICIPANT:mailto:john@example.com")
+            if rng.random() < 0.6:
+                # repeated properties, deliberately not in sorted order
+                L.append("ATTENDEE;CN=Ann:mailto:ann@example.com")
+                if rng.random() < 0.5:
+                    L.append("ATTENDEE;CN=Zed:mailto:zed@example.com")
+                    L.append("ATTENDEE;CN=Bob:mailto:bob@example.com")
+        if rng.random() < 0.15:
+            L.append("COMMENT:second thought")
+            L.append("COMMENT:a first thought")
         if rng.random() < 0.2 and kind == "VEVENT" and form != "date":
             L.append("RRULE:" + rng.choice(["FREQ=DAILY;COUNT=3", "FREQ=WEEKLY;BYDAY=MO,WE;COUNT=5", "FREQ=MONTHLY;INTERVAL=2;COUNT=4"]))
+            if form == "utc" and rng.random() < 0.5:
+                L.append("EXDATE:20300105T100000Z")
+                L.append("EXDATE:20300102T100000Z")
         if rng.random() < 0.2 and kind == "VTODO":
             L.append("STATUS:" + rng.choice(["NEEDS-ACTION", "COMPLETED", "IN-PROCESS"]))
             L.append("PERCENT-COMPLETE:" + str(rng.randint(0, 100)))
